@@ -1081,6 +1081,7 @@ def run_case(case):
             elif rec["n"] != rec["k"] - 1 or not rec["prefix_ok"]:
                 fs.append({"inv": "write_fault", "what": "not_a_prefix", "detail": ""})
     # (b), (c) importer node
+    imp_digest = None
     twins = any(f["what"] == "duplicate_id_identical_content" for f in wf)
     stats["episodes_with_identical_content_twins(parse leg skipped)"] += int(twins and case["parse_leg"])
     if case["parse_leg"] and not twins:
@@ -1102,6 +1103,7 @@ def run_case(case):
                 stats["read_fault_" + rec["outcome"].split(":")[0]] += 1
                 if rec["outcome"] == "returned_wrong":
                     fs.append({"inv": "read_fault", "what": "returned_other_result_after_read_error", "detail": f"k={rec['k']}"})
+        imp_digest = {k: imp.get(k) for k in ("models", "sched", "schedule", "read_faults", "reexport", "parse_error")}
         stats["stale_importer(parsed another file first)"] += int(bool(imp.get("prior_parsed")))
         stats["parse_legs"] += 1
         stats["fasta_reader_runs"] += int("fasta_plain" in imp)
@@ -1136,7 +1138,7 @@ def run_case(case):
         if k not in seen:
             seen.add(k)
             uniq.append(f)
-    return uniq, dict(stats), engine.plan_digest({"t1": t1, "faults": a.get("faults")})
+    return uniq, dict(stats), engine.plan_digest({"t1": t1, "faults": a.get("faults"), "imp": imp_digest})
 
 
 def _first_line_diff(x, y):
